@@ -725,9 +725,17 @@ fn specs(run: &Run) -> (Vec<Spec>, u64) {
                 if *kind == DocKind::Crypt && !cfg.has_filters() {
                     continue;
                 }
+                // revision 6 costs ~0.5 CPU-s per tuple (Algorithm 2.B runs ~20 times): the quick bound takes
+                // every third document per (configuration, password pair) and the thorough bound one
+                // cross-reference format per tuple; everything else is the full product
+                let r6 = cfg.revision() == 6;
                 for (mi, p) in perms.iter().enumerate() {
                     for table in [true, false] {
-                        let in_quick = mi == 0 && table == ((ci + pi + ki) % 2 == 0);
+                        let parity = table == ((ci + pi + ki) % 2 == 0);
+                        if r6 && !parity {
+                            continue;
+                        }
+                        let in_quick = mi == 0 && parity && (!r6 || (ci + pi + ki) % 3 == 0);
                         let take = if run.thorough || in_quick {
                             true
                         } else {
@@ -774,7 +782,7 @@ fn main() {
     run.rule(
         "start tuples = document menu (6 documents hitting every path of encrypt_object/decrypt_object) x handler configurations \
          (V1; V2 x 12 key lengths; V4 x {RC4,AES-128,Identity}^2 x EncryptMetadata x two ways of naming Identity; R5; V5 x {AES-256,Identity}^2) \
-         x 9 password pairs x permission sets x cross-reference format, enumerated in a fixed order without repetition; from each tuple a BFS to \
+         x 9 password pairs x permission sets {all, none, each single flag} x cross-reference format {table, stream} (revision 6: one format per tuple, alternating), enumerated in a fixed order without repetition; from each tuple a BFS to \
          depth 4 over 6 transitions on the real Document, deduplicated on (abstract state, has-passed-through-save/load); a tuple is non-trivial \
          when an encrypted state was reached; states = distinct (tuple, abstract state) pairs reached; a trace is a path whose last transition \
          satisfied every invariant",
@@ -789,9 +797,12 @@ fn main() {
     let total = Mutex::new(Stats::default());
     let samples: Mutex<Vec<Value>> = Mutex::new(vec![]);
     let done = AtomicU64::new(0);
+    let cpu: Mutex<BTreeMap<String, f64>> = Mutex::new(BTreeMap::new());
     util::par_for(list.len(), |i| {
         let t = build_tuple(&list[i]);
+        let t0 = std::time::Instant::now();
         let st = explore(&run, &t);
+        *cpu.lock().unwrap().entry(format!("R{} {}", t.cfg.revision(), t.kind.name())).or_insert(0.0) += t0.elapsed().as_secs_f64();
         let mut g = total.lock().unwrap();
         g.states += st.states;
         g.transitions += st.transitions;
@@ -822,12 +833,16 @@ fn main() {
     oc.sort();
     run.set("outcomes_per_transition", json!(oc.into_iter().map(|(k, v)| json!([k, v])).collect::<Vec<_>>()));
     run.set("start_tuples", json!(list.len()));
+    run.set(
+        "cpu_seconds_by_revision_and_document",
+        json!(cpu.into_inner().unwrap().into_iter().map(|(k, v)| (k, (v * 10.0).round() / 10.0)).collect::<BTreeMap<String, f64>>()),
+    );
     run.set("configurations", json!(menu::configs().len()));
     run.set("documents", json!(DocKind::ALL.iter().map(|d| d.name()).collect::<Vec<_>>()));
     run.set("password_pairs", json!(menu::password_pairs().iter().map(|p| p.0).collect::<Vec<_>>()));
     run.set("depth", json!(DEPTH));
     if !run.thorough {
-        run.set("quick_slice", json!(format!("all tuples with permissions=all and one cross-reference format, plus every 97th (offset seed mod 97) of the {} remaining tuples of the thorough product", rest)));
+        run.set("quick_slice", json!(format!("all tuples with permissions=all and one cross-reference format (revision 6: every third document per configuration and password pair), plus every 97th (offset seed mod 97) of the {} remaining tuples of the thorough product", rest)));
     }
     run.exhaustive(true);
     run.finish();
